@@ -263,3 +263,43 @@ PROPS["C12"] = {
                              "jobs": _enum_jobs([(4, 0, 0), (4, 1, 0)], 1500000, depth=2, base=3)},
                             {"kind": "rc", "procs": 8, "cases": 100000, "maxlen": 300}]},
 }
+
+PROPS["C05"] = {
+    "source": "c05_emitted.cc",
+    "level": "exploration",
+    "fuzz": False,
+    "rule": ("choice-stream decoded by construction into a response specification: any of the 71 status codes, 0-6 distinct typed headers (Cache-Control, Content-Encoding, Content-Type, "
+             "Authorization, Date, Location, Server, Access-Control-*, Allow), 0-4 cookies with any attribute combination, and either a fixed body (length 0..70000 biased to the 512*2^k buffer "
+             "doubling boundaries; send(code,ptr,len) or send(code,string)) or a stream (stream size 16..4096 or default; 0-8 operations: write of 0..20000 bytes biased to hex-length "
+             "boundaries incl. empty writes, operator<< with text and integers, flush; then ends). The handler on a live endpoint produces it, a raw client captures the bytes and the "
+             "harness's own strict RFC 7230 reader checks status line, every header/cookie exactly once, exact framing, body/decoded chunks, nothing after the message, send() promise value and "
+             "getResponseSize() = bytes on the wire. Fixed responses are repeated with maxResponseSize = s-2, s-1, s, s+1, 2s around the exact serialised size s: over the limit the promise "
+             "must be rejected and nothing emitted (a probe request on the same connection must be answered next). Non-trivial = non-empty body/stream and (limit within +-2 of s, or a "
+             "chunk at a hex-length boundary, or a body at a doubling boundary); distinct = hash of the specification and limit variant."),
+    "engine": "rapidcheck",
+    "technique": "property-based testing (rapidcheck) against a live endpoint: generated response specifications, independent strict HTTP grammar as the oracle, boundary-directed maximum-response-size configurations",
+    "level_text": "Generated specifications x configurations against the real server over loopback; the message grammar is written for the harness and shares no code with pistache. Exploration only. libFuzzer is not used (network round trip per case, no useful coverage signal across threads).",
+    "level_note": "The Date header's format is not judged; handler-set Content-Length/Transfer-Encoding/Connection are not generated; streamed responses run with the default limit (the refusal clause is about fixed-length responses); the request half (client-written requests) is checked by the C02 harness with the same grammar.",
+    "assumptions": ["loopback TCP delivers what the server wrote", "5 s is far above any legitimate response latency (3x replay rule for time-outs)"],
+    "quick": {"stages": [{"kind": "replay"}, {"kind": "rc", "procs": 4, "cases": 500, "maxlen": 400}]},
+    "thorough": {"stages": [{"kind": "replay"}, {"kind": "rc", "procs": 8, "cases": 8000, "maxlen": 400}]},
+}
+
+PROPS["C02"] = {
+    "source": "c02_roundtrip.cc",
+    "level": "exploration",
+    "fuzz": False,
+    "rule": ("choice-stream decoded by construction into a request specification (all nine methods via RequestBuilder::method, 1-5 unreserved path segments, 0-5 unique query pairs incl. empty "
+             "values, 0-6 distinct typed headers with writers, 0-5 cookies over cookie-octets with repeated names, body 0..32 KiB of a self-describing pattern incl. CR/LF/NUL/0xFF) and a "
+             "response specification (any status code, typed headers, 0-4 cookies with any attribute combination, fixed body or a stream of write / operator<< / flush operations). The request "
+             "goes through Http::Experimental::Client to a live Http::Endpoint; the handler records method, resource, query, raw and typed headers, cookies and body; the client-side Response "
+             "is recorded from the promise. Both are compared with the specifications; exactly one handler call and exactly one settlement per request. Sequential exchanges reuse pooled "
+             "keep-alive connections. Non-trivial = request has a body, query or cookie and response has a body or cookie; distinct = hash of both specifications."),
+    "engine": "rapidcheck",
+    "technique": "property-based testing (rapidcheck): generated request/response specifications through the real client and server over loopback, with the specification (not the serialiser) as the round-trip oracle",
+    "level_text": "Generated specifications through both real endpoints of the library. Exploration only. libFuzzer is not used (network round trip per case).",
+    "level_note": "Components that need escaping are not generated (no '&', '=', SP in query tokens; no ';' in cookie values; no CR/LF in header values). User-Agent/Host are the client's own. Request bodies stay below the socket buffer (the client's larger-body branch is unimplemented). Allow is compared by raw text only (no reader).",
+    "assumptions": ["8 s without settlement means a lost exchange (3x replay rule)"],
+    "quick": {"stages": [{"kind": "replay"}, {"kind": "rc", "procs": 4, "cases": 600, "maxlen": 500}]},
+    "thorough": {"stages": [{"kind": "replay"}, {"kind": "rc", "procs": 8, "cases": 10000, "maxlen": 500}]},
+}
